@@ -62,3 +62,60 @@ def run_ev(pid, kinds, tier, seed, verdict, per_quick=3, per_thorough=25, descri
                 verdict.add("EV:" + key, {"id": c["id"], "lang": c["lang"], "ct": c["ct"], "event": ev},
                             "during generation of %s: %s" % (c["id"], describe(ev) if describe else json.dumps(ev)[:300]))
     return nprog, judged, skipped, sample
+
+
+# ---- generator scenes (spec/HGenScene.tla): TLC-enumerated symbol-table contents and requests, executed by a real Generator ----------
+SCENE_CLAUSES = {
+    # match.FunctionTypeArgumentProjected is informational: C08 does not forbid it (the generator's choices simply do not mention the
+    # method's parameters, and an unmentioned parameter may be projected); counted in the evidence, see DESIGN.md section 5
+    "C08": ("instantiate.", "match.OneArgumentPerParameter", "match.NoPrimitiveOrBareArgument", "match.NoException"),
+    "C01": ("match.MemberTyped", "compare."),
+    "C05": ("prune.",),
+}
+INFO = {}
+SCENE_KINDS = {"C08": ("match",), "C01": ("match", "compare"), "C05": ("prune",)}
+
+
+def run_scenes(pid, tier, verdict, langs=("java", "kotlin", "groovy", "scala")):
+    """returns (scenes executed, events judged, sample event)"""
+    g = tlc_must("HGenScene", cfg(init="Init", next_="Next", constraints=["Emit"]), workers=1, name="gen_scene", timeout=600)
+    seen, scenes = set(), []
+    for j in g.json:
+        k = json.dumps(j["id"], sort_keys=True)
+        if k not in seen and j["id"]["kind"] in SCENE_KINDS[pid]:
+            seen.add(k)
+            scenes.append(j)
+    d = subdir(pid.lower() + "scenes")
+    sf = write_json(os.path.join(d, "scenes.json"), scenes)
+    sw = {"disUse": False, "disContra": False, "noBounds": False, "noParamFn": False}
+    nseeds = 12 if tier == "quick" else 60
+
+    def ex(lang):
+        return json.loads(run_driver("ev_ops.py", [lang, json.dumps(sw), "[]", os.path.join(d, "sc_%s.json" % lang), "instantiate", sf, nseeds], timeout=3400))
+    files = [f for fl in parallel(ex, list(langs)) for f in fl]
+    vals = parallel(validate, files)
+    judged = 0
+    sample = None
+    INFO.clear()
+    for f, v in zip(files, vals):
+        cases = {c["id"]: c for c in read_json(f)["cases"]}
+        total = sum(len(c["events"]) for c in cases.values())
+        if v.distinct != total:
+            raise MachineryError("scenes: validated %d of %d events in %s" % (v.distinct, total, f))
+        judged += total - sum(1 for j in v.json if j["skipped"])
+        for c in cases.values():
+            for ev in c["events"]:
+                sample = sample or (ev if ev["kind"] != "instantiate" else None)
+        for j in v.json:
+            c = cases[j["case"]]
+            ev = c["events"][j["event"] - 1]
+            if j["skipped"]:
+                raise MachineryError("scene event not judgeable: %s" % json.dumps(ev)[:300])
+            for clause, shape in j["bad"]:
+                clause = clause if "." in clause else ev["kind"] + "." + clause
+                if clause == "match.FunctionTypeArgumentProjected":
+                    INFO[clause] = INFO.get(clause, 0) + 1
+                if clause.startswith(SCENE_CLAUSES[pid]):
+                    verdict.add("GS:%s/%s" % (clause, shape), {"id": c["id"], "lang": c["lang"], "ct": c["ct"], "event": ev},
+                                "generator scene %s: %s" % (c["id"][:160], json.dumps(ev)[:400]))
+    return len(scenes) * len(langs), judged, sample
